@@ -327,3 +327,52 @@ Fixpoint nd_lookup (t : list (string * need)) (n : string) : option need :=
 Definition needs (n : string) : need := match nd_lookup nd_all n with Some nd => nd | None => [] end.
 (* some needed operand is missing *)
 Definition lacking (n : string) (s : state) : bool := lacking_in (needs n) s.
+
+(* ---- guards: all operands are there, but the condition on their VALUES under which the
+   instruction applies does not hold.  [gd_all] gives, per instruction NAME, the test "the guard
+   fails" (written with the comparison the doc comment states).  An instruction whose guard fails
+   only pops, exactly as when an operand is missing. ---- *)
+Local Open Scope Z_scope.
+Section Guards.
+  Context {FO : FloatOps}.
+  Definition top_int (P : Z -> bool) (s : state) : bool := match st_int s with z :: _ => P z | [] => false end.
+  Definition second_int (P : Z -> bool) (s : state) : bool := match st_int s with _ :: z :: _ => P z | _ => false end.
+  Definition top_float (P : f32 -> bool) (s : state) : bool := match st_float s with x :: _ => P x | [] => false end.
+
+  Definition gd_all : list (string * (state -> bool)) :=
+    [ (* documented: "If the top item is zero this acts as a NOOP" (the two operands are consumed) *)
+      ("INTEGER./", top_int (fun z => z =? 0)); ("INTEGER.%", top_int (fun z => z =? 0));
+      ("FLOAT./", top_float (fun x => feq x f_zero)); ("FLOAT.%", top_float (fun x => feq x f_zero));
+      (* documented: "Increases the current value by one if current < destination. Otherwise ... NOOP" *)
+      ("INDEX.INCREASE", fun s => match st_index s with (cur, dest) :: _ => negb (cur <? dest) | [] => false end);
+      (* documented: "If the length is < 0 no vector is pushed" *)
+      ("FLOATVECTOR.SINE", top_int (fun n => negb (0 <=? n)));
+      (* guards of the code on which the doc comments are silent: a size that is not positive, *)
+      ("BOOLVECTOR.ONES", top_int (fun n => negb (0 <? n))); ("BOOLVECTOR.ZEROS", top_int (fun n => negb (0 <? n)));
+      ("INTVECTOR.ONES", top_int (fun n => negb (0 <? n))); ("INTVECTOR.ZEROS", top_int (fun n => negb (0 <? n)));
+      ("FLOATVECTOR.ONES", top_int (fun n => negb (0 <? n))); ("FLOATVECTOR.ZEROS", top_int (fun n => negb (0 <? n)));
+      (* a name without a definition, a negative argument count, *)
+      ("CODE.DEFINITION", fun s => match st_name s with
+                                   | n :: _ => match bind_get (st_bind s) n with None => true | Some _ => false end
+                                   | [] => false end);
+      ("EXEC.CMD", top_int (fun n => negb (-1 <? n)));
+      (* a node id that is not positive, a negative GRAPH stack position *)
+      ("GRAPH.NODE*GETSTATE", top_int (fun id => negb (0 <? id)));
+      ("GRAPH.NODE*SETSTATE", second_int (fun id => negb (0 <? id)));
+      ("GRAPH.NODE*NEIGHBORS", top_int (fun id => negb (0 <? id)));
+      ("GRAPH.NODE*PREDECESSORS", top_int (fun id => negb (0 <? id)));
+      ("GRAPH.NODE*SUCCESSORS", top_int (fun id => negb (0 <? id)));
+      ("GRAPH.NODES*HISTORY", top_int (fun pos => negb (0 <=? pos)));
+      ("GRAPH.NODE*HISTORY", top_int (fun pos => negb (0 <=? pos)));
+      ("GRAPH.EDGE*HISTORY", top_int (fun pos => negb (0 <=? pos))) ].
+
+  Fixpoint gd_lookup (t : list (string * (state -> bool))) (n : string) : option (state -> bool) :=
+    match t with
+    | [] => None
+    | (k, g) :: r => if String.eqb n k then Some g else gd_lookup r n
+    end.
+  Definition guard_fails (n : string) (s : state) : bool :=
+    match gd_lookup gd_all n with Some g => g s | None => false end.
+  (* the instruction does not apply *)
+  Definition unfired (n : string) (s : state) : bool := lacking n s || guard_fails n s.
+End Guards.
